@@ -24,6 +24,12 @@ type SyncClock struct {
 	RTPTimeUnit float64 // RTP时间单位，每个RTP时间的纳秒数
 
 	initOn time.Time // 初始化时间
+
+	// RTP 时间戳是 32 位循环计数(RFC 3550)：按相邻时间戳的带符号差值累加成 64 位，
+	// 回绕(2^32)前后换算出的时间保持连续
+	extended bool   // extRTP/lastRTP 是否已初始化
+	lastRTP  uint32 // 上一个换算过的 RTP 时间戳
+	extRTP   int64  // 展开后的 64 位时间戳
 }
 
 // Init 初始化同步时钟
@@ -58,9 +64,21 @@ func (sc *SyncClock) RelativeNtpNow() int64 {
 	return int64(time.Now().Sub(sc.initOn))
 }
 
+// extend 把 32 位 RTP 时间戳展开为不回绕的 64 位值(允许小幅乱序/回退)
+func (sc *SyncClock) extend(rtptime uint32) int64 {
+	if !sc.extended {
+		sc.extended = true
+		sc.extRTP = int64(rtptime)
+	} else {
+		sc.extRTP += int64(int32(rtptime - sc.lastRTP))
+	}
+	sc.lastRTP = rtptime
+	return sc.extRTP
+}
+
 // RelativeNtp .
 func (sc *SyncClock) RelativeNtp(rtptime uint32) int64 {
-	diff := int64(rtptime) - int64(sc.RTPTime)
+	diff := sc.extend(rtptime) - int64(sc.RTPTime)
 	return int64(float64(diff) * sc.RTPTimeUnit)
 }
 
